@@ -19,6 +19,7 @@ func init() {
 }
 
 func runC16(w *World, r *Report, tier string) {
+	wireRule(w, r, "W1", "<handshake>digest</handshake>", wireHandshake)
 	r.Rule("O1", "digest: Component.handshake returns hex.EncodeToString(SHA-1(streamId ++ c.Secret))")
 	r.Rule("O2", "provenance: the stream id is the first result of c.transport.Connect(); StartStream returns InitStream's id, which is the value of the id attribute")
 	r.Rule("O3", "wire form: exactly one write of \"<handshake>\" ++ digest ++ \"</handshake>\" before the reply is read")
